@@ -385,6 +385,41 @@ def check_history(env, acc):
                 acc.nontriv("emhist", hist)
 
 
+def check_circuit_history(env, acc):
+    """One long-lived Reck object mapping a circuit that is changed in place between calls (parameter updates,
+    appended components, another circuit mapped in between): every mapping reproduces the circuit as it is now."""
+    alpha = [("pset", env.PH[1]), ("pset", env.PH[2]), ("append",), ("map",), ("map_other",)]
+    other = lw.Unitary(kernel.haar(3, env.seed + 61))
+    for d in range(0, 4):
+        for hist in itertools.product(alpha, repeat=d):
+            par = lw.Parameter(env.PH[0])
+            cc = lw.Circuit(3)
+            cc.bs(0, reflectivity=env.R[1]); cc.ps(1, par); cc.bs(1, reflectivity=env.R2, convention="H"); cc.herald(0, 2)
+            r = itf.Reck()
+            case = {"scenario": "history_circuit", "history": hist, "seed": env.seed}
+            acc.tick("executions"); acc.tick("transitions", len(hist) + 1)
+            try:
+                for op in hist:
+                    if op[0] == "pset":
+                        par.set(op[1])
+                    elif op[0] == "append":
+                        cc.bs(0, reflectivity=0.3); cc.ps(0, 0.9)
+                    elif op[0] == "map":
+                        r.map(cc)
+                    else:
+                        r.map(other)
+                m = r.map(cc)
+            except Exception as e:  # noqa: BLE001
+                acc.violation("mapping_fails", case, {"error": repr(e)})
+                continue
+            err = float(np.abs(m.U - cc.U).max())
+            if err > 1e-8 or m.heralds != cc.heralds:
+                acc.violation("mapped_unitary_differs", case, {"max_err": err})
+            acc.state("circhist", hist)
+            if any(h[0] in ("map", "map_other") for h in hist):
+                acc.nontriv("circhist", hist)
+
+
 def herald_layouts(n):
     lay = [()]
     if n >= 2:
@@ -442,6 +477,7 @@ def run(tier, seed):
     e3 = kernel.Acc()
     check_resampling(env, e3)
     check_history(env, e3)
+    check_circuit_history(env, e3)
     acc.merge(e3)
     meta = {
         "rule": "default error model: every phased permutation matrix with phases in {1,-1,i} for n<=3 (and n=4: all "
@@ -467,7 +503,9 @@ def replay(w, acc):
     case = w["case"]
     env = Env(case.get("seed", 0))
     if "scenario" in case:
-        if str(case["scenario"]).startswith("history"):
+        if case["scenario"] == "history_circuit":
+            check_circuit_history(env, acc)
+        elif str(case["scenario"]).startswith("history"):
             check_history(env, acc)
         else:
             check_resampling(env, acc)
